@@ -152,8 +152,17 @@ func refUn(op string, x float64) (float64, bool) {
 		}
 		return 1 - math.Erf(x), true
 	case "LogErfc":
-		if x < 20 {
+		// second formulas, independent of special.LogErfc's own branch selection, on the whole line
+		switch {
+		case math.Abs(x) < 0.5:
+			return math.Log1p(-math.Erf(x)), true
+		case x < 0:
+			return math.Log(2 - math.Erfc(-x)), true
+		case x < 20:
 			return math.Log(math.Erfc(x)), true
+		case x < 1e150:
+			// erfc x = e^(-x^2) / (x sqrt pi) (1 - 1/(2x^2) + 3/(4x^4) - ...)
+			return -x*x - math.Log(x*math.Sqrt(math.Pi)) + math.Log1p(-1/(2*x*x)+3/(4*x*x*x*x)), true
 		}
 		return 0, false
 	case "Gamma":
@@ -263,8 +272,13 @@ func check(c Case) *Failure {
 		}
 	}
 	res := run(c)
+	orig := c
+	if f := repIndependence(orig, res); f != nil {
+		return f
+	}
+	c = lowered(c) // operand representations: the reference works on the abstract element sequence (all elements, implicit zeros included)
 	fail := func(site, what, want string) *Failure {
-		return &Failure{Case: c, Site: site, Failure: what, Got: res.Text, Want: want}
+		return &Failure{Case: orig, Site: site, Failure: what, Got: res.Text, Want: want}
 	}
 	g := genericName(c.Op)
 	wantPanic := false
@@ -718,7 +732,7 @@ func check(c Case) *Failure {
 		switch g {
 		case "Vmean":
 			if !isF(c.TC) {
-				return checkIntReduction(c, res)
+				return withCase(checkIntReduction(c, res), orig)
 			}
 			for _, x := range xs {
 				sum.Add(sum, bigOf(x))
@@ -731,7 +745,7 @@ func check(c Case) *Failure {
 			}
 		case "VdotV":
 			if !isF(c.TC) {
-				return checkIntReduction(c, res)
+				return withCase(checkIntReduction(c, res), orig)
 			}
 			for i, x := range xs {
 				y, _ := rd(c.Y[i])
@@ -741,7 +755,7 @@ func check(c Case) *Failure {
 			want, _ = sum.Float64()
 		case "Mtrace":
 			if !isF(c.TC) {
-				return checkIntReduction(c, res)
+				return withCase(checkIntReduction(c, res), orig)
 			}
 			for i := 0; i < c.N; i++ {
 				sum.Add(sum, bigOf(xs[i*c.M+i]))
@@ -824,6 +838,39 @@ func check(c Case) *Failure {
 	return nil
 }
 
+// "equal operands give equal values": the result of a vector / matrix taking method may depend on the ELEMENTS of the operand
+// only, not on the container. Run the same call on a dense copy of the element sequence and compare (this oracle also covers
+// the integer receivers, for which the composite programs have no closed form).
+func repIndependence(c Case, res Result) *Failure {
+	if c.VX == nil && c.MA == nil {
+		return nil
+	}
+	d := c
+	if c.VX != nil {
+		d.VX = &VRep{Kind: "dense", TV: c.VX.TV, X: c.VX.elems()}
+	}
+	if c.VY != nil {
+		d.VY = &VRep{Kind: "dense", TV: c.VY.TV, X: c.VY.elems()}
+	}
+	if c.MA != nil {
+		n, m := c.MA.dims()
+		d.MA = &MRep{Kind: "dense", TV: c.MA.TV, N: n, M: m, X: c.MA.elems()}
+	}
+	rd := run(d)
+	if rd.Text != res.Text && !(rd.Kind == "panic" && res.Kind == "panic") {
+		return &Failure{Case: c, Site: genericName(c.Op) + ":representation", Failure: "result depends on the representation of the operand (" + repTag(c) + "): the dense copy of the same elements gives another value",
+			Got: res.Text, Want: rd.Text}
+	}
+	return nil
+}
+
+func withCase(f *Failure, c Case) *Failure {
+	if f != nil {
+		f.Case = c
+	}
+	return f
+}
+
 // integer Vmean / VdotV / Mtrace: exact wrap-around reference
 func checkIntReduction(c Case, res Result) *Failure {
 	k := bitsOf(c.TC)
@@ -877,7 +924,7 @@ func shrink(f *Failure) *Failure {
 	for changed := true; changed; {
 		changed = false
 		c := best.Case
-		if len(c.X) > 1 && c.Op != "Mtrace" && c.Op != "Mnorm" {
+		if len(c.X) > 1 && c.Op != "Mtrace" && c.Op != "Mnorm" && c.VX == nil && c.MA == nil {
 			for i := range c.X {
 				d := c
 				d.X = append(append([]V{}, c.X[:i]...), c.X[i+1:]...)
